@@ -1336,4 +1336,848 @@ theorem inherit_ok_good (rx : String → String → Bool) (op name : Nat) (own :
         exact not_revalidated_sat rx op name own supers hown hsup hrc.1 hov hp hd hnn
 
 
+
+/-! ### constructors: a declaration whose constructor succeeded is valid on its own -/
+
+
+theorem validateUnbound_ok {rx : String → String → Bool} {op name : Nat} {p : Param}
+    (h : validateUnbound rx op name p = .ok ()) :
+    ∃ view d, unboundView p.ptype op name p.slots = .ok view ∧ view .default = some d ∧
+      validate rx p.ptype (cfgOf view) d.v = .ok () := by
+  unfold validateUnbound at h
+  cases hv : unboundView p.ptype op name p.slots with
+  | error e => simp [hv, bind, Except.bind] at h
+  | ok view =>
+    simp only [hv, bind, Except.bind] at h
+    cases hd : view .default with
+    | none => simp [hd] at h
+    | some d => exact ⟨view, d, rfl, hd, by simpa [hd] using h⟩
+
+theorem staticFill_ownFound (own : Param) {s : Slot} (hs : hasSlot own.ptype s = true) :
+    staticFill own.ptype (ownFound own) s = staticFill own.ptype own.slots s := by
+  simp [staticFill, ownFound, hs]
+
+/-- for the types without `_update_state`, the unbound view of a declaration and the merge of that
+declaration alone show the same configuration -/
+theorem view_prepare_cfg {own : Param} (hT : own.ptype ≠ .selector) {op name op' name' : Nat} {view f4 : Slots}
+    (hv : unboundView own.ptype op name own.slots = .ok view)
+    (hp : prepare own.ptype op' name' (ownFound own) = .ok f4) {s : Slot} (hs : hasSlot own.ptype s = true) :
+    cfgOf f4 s = cfgOf view s := by
+  unfold unboundView at hv
+  by_cases h1 : own.ptype = .tuple
+  · rw [h1] at hp hv
+    rw [prepare_tuple_cfg hp s, runCallables_tuple_cfg hv s]
+    have e : ∀ t, hasSlot own.ptype t = true →
+        cfgOf (staticFill .tuple (ownFound own)) t = cfgOf (staticFill .tuple own.slots) t := by
+      intro t ht
+      have := staticFill_ownFound own ht
+      rw [h1] at this
+      simp [cfgOf, this]
+    rw [e .length (by rw [h1]; rfl), e s hs]
+    unfold lenOfDefault
+    rw [e .default (by rw [h1]; rfl)]
+  · rw [prepare_plain h1 hT] at hp
+    split at hp
+    · cases hp
+    · cases hp
+      have : runCallables own.ptype 0 op name (staticFill own.ptype own.slots) = .ok (staticFill own.ptype own.slots) := by
+        revert h1 hT
+        cases own.ptype <;> simp [runCallables]
+      rw [this] at hv
+      cases hv
+      rw [cfgOf_copyMutable]
+      simp [cfgOf, staticFill_ownFound own hs]
+
+theorem ownValid_of_view {rx : String → String → Bool} {own : Param} (hT : own.ptype ≠ .selector) {op name : Nat}
+    {view : Slots} {d : Val}
+    (hv : unboundView own.ptype op name own.slots = .ok view) (hd : view .default = some d)
+    (hval : validate rx own.ptype (cfgOf view) d.v = .ok ()) : OwnValid rx own := by
+  intro op' name' f4 d' hp hd' _
+  have hcfg := fun s hs => view_prepare_cfg (s := s) hT hv hp hs
+  have hdd : d'.v = d.v := by
+    have := hcfg .default rfl
+    simp only [cfgOf, hd', hd, Option.map] at this
+    exact Option.some.inj this
+  rw [hdd, validate_congr rx own.ptype d.v (fun s hs => hcfg s (relevant_hasSlot hs))]
+  exact hval
+
+
+
+theorem ownValid_parameter (rx : String → String → Bool) {own : Param} (h : own.ptype = .parameter) :
+    OwnValid rx own := by
+  intro op name f4 d _ _ _
+  rw [h]; rfl
+
+theorem checked_ok {rx : String → String → Bool} {op name : Nat} {p own : Param}
+    (h : checked rx op name p = .ok own) : own = p ∧ validateUnbound rx op name p = .ok () := by
+  unfold checked at h
+  split at h
+  · cases h; rename_i u hu; cases u; exact ⟨rfl, hu⟩
+  · cases h
+
+theorem ownValid_of_checked {rx : String → String → Bool} {op name : Nat} {p own : Param}
+    (hT : p.ptype ≠ .selector) (h : checked rx op name p = .ok own) : OwnValid rx own := by
+  obtain ⟨rfl, hv⟩ := checked_ok h
+  obtain ⟨view, dv, h1, h2, h3⟩ := validateUnbound_ok hv
+  exact ownValid_of_view hT h1 h2 h3
+
+theorem construct_ownValid_nonselector (rx : String → String → Bool) (op name : Nat) (d : Decl) (own : Param)
+    (hT : d.ptype ≠ .selector) (h : construct rx op name d = .ok own) : OwnValid rx own := by
+  unfold construct at h
+  split at h
+  · cases h
+    exact ownValid_parameter rx rfl
+  · exact ownValid_of_checked (by simpa [baseInit] using hT) h
+  · exact ownValid_of_checked (by simpa [baseInit] using hT) h
+  · exact ownValid_of_checked (by simp [baseInit]) h
+  · cases hc : tupleNoLength d.args with
+    | true => simp [hc] at h
+    | false =>
+      simp only [hc, Bool.false_eq_true, if_false] at h
+      cases hl : tupleLength d.args with
+      | error e => simp [hl] at h
+      | ok len =>
+        simp only [hl] at h
+        exact ownValid_of_checked (by simp [baseInit]) h
+  · exact ownValid_of_checked (by simp [baseInit]) h
+  · rename_i hpt
+    exact absurd hpt hT
+
+
+
+/-! ### histories: the invariant of the property's last sentence -/
+
+
+theorem constructAll_mem (rx : String → String → Bool) (op : Nat) :
+    ∀ (decls : List (Nat × Decl)) (i : Nat) (acc raws : List (Nat × Param)),
+      constructAll rx op decls i acc = .ok raws →
+      ∀ n p, (n, p) ∈ raws → (n, p) ∈ acc ∨ ∃ d, (n, d) ∈ decls ∧ construct rx op n d = .ok p
+  | [], _, acc, raws, h, n, p, hm => by
+    simp only [constructAll] at h
+    cases h
+    exact Or.inl (by simpa using hm)
+  | (m, d) :: rest, i, acc, raws, h, n, p, hm => by
+    simp only [constructAll] at h
+    cases hc : construct rx op m d with
+    | error e => simp [hc] at h
+    | ok q =>
+      simp only [hc] at h
+      rcases constructAll_mem rx op rest (i + 1) ((m, q) :: acc) raws h n p hm with h1 | ⟨d', hd, hcd⟩
+      · rcases List.mem_cons.1 h1 with e | e
+        · cases e
+          exact Or.inr ⟨d, by simp, hc⟩
+        · exact Or.inl e
+      · exact Or.inr ⟨d', List.mem_cons_of_mem _ hd, hcd⟩
+
+theorem mergeAll_mem (rx : String → String → Bool) (op : Nat) (w : World) (tail : List Nat) :
+    ∀ (raws : List (Nat × Param)) (i : Nat) (acc merged : List (Nat × MergeRes)),
+      mergeAll rx op w tail raws i acc = (merged, none) →
+      ∀ n r, (n, r) ∈ merged → (n, r) ∈ acc ∨
+        ∃ p, (n, p) ∈ raws ∧ r = inherit rx op n p (w.supers tail n) ∧ r.outcome = .ok
+  | [], _, acc, merged, h, n, r, hm => by
+    simp only [mergeAll, Prod.mk.injEq, and_true] at h
+    subst h
+    exact Or.inl (by simpa using hm)
+  | (m, p) :: rest, i, acc, merged, h, n, r, hm => by
+    simp only [mergeAll] at h
+    split at h
+    · rename_i hok
+      rcases mergeAll_mem rx op w tail rest (i + 1) _ merged h n r hm with h1 | ⟨p', hp, hr, ho⟩
+      · rcases List.mem_cons.1 h1 with e | e
+        · cases e
+          exact Or.inr ⟨p, by simp, rfl, by simpa using hok⟩
+        · exact Or.inl e
+      · exact Or.inr ⟨p', List.mem_cons_of_mem _ hp, hr, ho⟩
+    · simp at h
+
+theorem lookupParam_mem {l : List (Nat × MergeRes)} {n : Nat} {p : Param} (h : lookupParam l n = some p) :
+    ∃ r, (n, r) ∈ l ∧ r.param = p := by
+  induction l with
+  | nil => simp [lookupParam] at h
+  | cons x rest ih =>
+    obtain ⟨m, r⟩ := x
+    simp only [lookupParam] at h
+    split at h
+    · rename_i hm; subst hm; cases h; exact ⟨r, by simp, rfl⟩
+    · obtain ⟨r', hr, hp⟩ := ih h
+      exact ⟨r', List.mem_cons_of_mem _ hr, hp⟩
+
+
+
+/-- every Parameter owned by a class has all its slots filled and a default that is
+None or satisfies its own constraints and type -/
+def World.Inv (rx : String → String → Bool) (w : World) : Prop :=
+  ∀ c n p, w.params c n = some p → Good rx p
+
+theorem supers_good {rx : String → String → Bool} {w : World} (hinv : w.Inv rx) (tail : List Nat) (n : Nat)
+    {h : Param} (hm : some h ∈ w.supers tail n) : Good rx h := by
+  unfold World.supers at hm
+  obtain ⟨c, _, hc⟩ := List.mem_map.1 hm
+  exact hinv c n h hc
+
+/-- an `add_parameter` whose merge raised -/
+def addFailed (op : Op) (o : StepObs) : Bool :=
+  match op, o.outcome with
+  | .addParam .., .mergeError .. => true
+  | _, _ => false
+
+theorem step_preserves_inv (rx : String → String → Bool)
+    (hctor : ∀ op name d own, construct rx op name d = .ok own → OwnValid rx own)
+    (i : Nat) (w : World) (op : Op) (hinv : w.Inv rx) (hadd : addFailed op (step rx i w op).2 = false) :
+    (step rx i w op).1.Inv rx := by
+  cases op with
+  | declare cls mro decls =>
+    unfold step
+    cases mro with
+    | nil => exact hinv
+    | cons c tail =>
+      simp only []
+      split
+      · exact hinv
+      · cases hca : constructAll rx i decls 0 [] with
+        | error e => obtain ⟨a, b, c'⟩ := e; exact hinv
+        | ok raws =>
+          simp only []
+          cases hma : mergeAll rx i w tail raws 0 [] with
+          | mk merged fail =>
+            cases fail with
+            | some f => obtain ⟨a, b⟩ := f; exact hinv
+            | none =>
+              intro c' n p hp
+              simp only [] at hp
+              split at hp
+              · obtain ⟨r, hr, hrp⟩ := lookupParam_mem hp
+                rcases mergeAll_mem rx i w tail raws 0 [] merged hma n r hr with h1 | ⟨q, hq, hrq, hok⟩
+                · cases h1
+                · rcases constructAll_mem rx i decls 0 [] raws hca n q hq with h2 | ⟨d, _, hcd⟩
+                  · cases h2
+                  · subst hrp
+                    rw [hrq]
+                    rw [hrq] at hok
+                    exact inherit_ok_good rx i n q _ (hctor i n d q hcd) (fun h hm => supers_good hinv tail n hm) hok
+              · exact hinv c' n p hp
+  | addParam cls name decl =>
+    simp only [step] at hadd ⊢
+    cases hm : w.mro cls with
+    | none => exact hinv
+    | some m =>
+      simp only [hm] at hadd ⊢
+      cases hc : construct rx i name decl with
+      | error e => exact hinv
+      | ok raw =>
+        simp only [hc] at hadd ⊢
+        intro c' n p hp
+        simp only [] at hp
+        split at hp
+        · cases hp
+          have hok : (inherit rx i name raw (w.supers m.tail name)).outcome = .ok := by
+            cases ho : (inherit rx i name raw (w.supers m.tail name)).outcome with
+            | ok => rfl
+            | _ => simp [addFailed, ho] at hadd
+          exact inherit_ok_good rx i name raw _ (hctor i name decl raw hc) (fun h hm => supers_good hinv _ name hm) hok
+        · exact hinv c' n p hp
+
+/-- no `add_parameter` of the history failed -/
+def noFailedAdd (rx : String → String → Bool) : List Op → Nat → World → Bool
+  | [], _, _ => true
+  | op :: rest, i, w =>
+    let r := step rx i w op
+    !addFailed op r.2 && noFailedAdd rx rest (i + 1) r.1
+
+theorem run_preserves_inv (rx : String → String → Bool)
+    (hctor : ∀ op name d own, construct rx op name d = .ok own → OwnValid rx own) :
+    ∀ (ops : List Op) (i : Nat) (w : World) (acc : List StepObs), w.Inv rx → noFailedAdd rx ops i w = true →
+      (run rx ops i w acc).1.Inv rx
+  | [], _, _, _, hinv, _ => hinv
+  | op :: rest, i, w, acc, hinv, hno => by
+    simp only [noFailedAdd, Bool.and_eq_true, Bool.not_eq_true'] at hno
+    simp only [run]
+    exact run_preserves_inv rx hctor rest (i + 1) _ _ (step_preserves_inv rx hctor i w op hinv hno.1) hno.2
+
+
+
+/-! ### the Selector constructor -/
+
+
+/-- validation of a Selector on a configuration given by its three relevant slots -/
+theorem validateSelector_eq {c c' : Cfg} (v : PyV) (h1 : c .checkOnSet = c' .checkOnSet)
+    (h2 : c .allowNone = c' .allowNone) (h3 : c .objects = c' .objects) :
+    validateSelector c v = validateSelector c' v := by
+  simp only [validateSelector, h1, h2, h3]
+
+theorem validateSelector_falsy {c : Cfg} {cos an objs : PyV} (v : PyV) (h1 : c .checkOnSet = some cos)
+    (h2 : c .allowNone = some an) (h3 : c .objects = some objs) (hf : cos.truthy = false) :
+    validateSelector c v = .ok () := by
+  simp [validateSelector, h1, h2, h3, hf]
+
+theorem selectorRaw_ptype (op name : Nat) (a : Slots) (inst : Option Bool) (ad : Option Val) :
+    (selectorRaw op name a inst ad).ptype = .selector := rfl
+
+theorem selectorRaw_allowNone (op name : Nat) (a : Slots) (inst : Option Bool) (ad : Option Val) :
+    ((selectorRaw op name a inst ad).slots .allowNone).isSome = true := by
+  simp only [selectorRaw, Slots.set, if_true]
+  cases a .allowNone <;> rfl
+
+
+
+/-- facts shared by both cases: what the merge of a Selector declaration alone shows -/
+theorem selector_alone {own : Param} (hT : own.ptype = .selector) {op' name' : Nat} {f4 : Slots}
+    (hp : prepare own.ptype op' name' (ownFound own) = .ok f4) :
+    ∃ cos' dd', selCos (cfgOf (staticFill .selector own.slots)) = some cos' ∧
+      cfgOf (staticFill .selector own.slots) .default = some dd' ∧
+      cfgOf f4 .default = some dd' ∧ cfgOf f4 .checkOnSet = some cos' ∧
+      cfgOf f4 .allowNone = cfgOf (staticFill .selector own.slots) .allowNone ∧
+      cfgOf f4 .objects =
+        (if cos' = .atom (.bool false) ∧ dd'.isNone = false
+         then some (adopt (selBase (cfgOf (staticFill .selector own.slots))) dd')
+         else some (selBase (cfgOf (staticFill .selector own.slots)))) := by
+  rw [hT] at hp
+  obtain ⟨cos', dd', hc, hd, hall⟩ := prepare_selector_cfg rfl hp
+  have e : ∀ t, hasSlot .selector t = true →
+      cfgOf (staticFill .selector (ownFound own)) t = cfgOf (staticFill .selector own.slots) t := by
+    intro t ht
+    have := staticFill_ownFound own (s := t) (by rw [hT]; exact ht)
+    rw [hT] at this
+    simp [cfgOf, this]
+  have eb : selBase (cfgOf (staticFill .selector (ownFound own))) = selBase (cfgOf (staticFill .selector own.slots)) := by
+    unfold selBase; rw [e .objects rfl]
+  have ec : selCos (cfgOf (staticFill .selector (ownFound own))) = selCos (cfgOf (staticFill .selector own.slots)) := by
+    unfold selCos; rw [e .checkOnSet rfl, eb]
+  refine ⟨cos', dd', by rw [← ec]; exact hc, by rw [← e .default rfl]; exact hd, ?_, ?_, ?_, ?_⟩
+  · rw [hall]; simp only [reduceCtorEq, if_false]; exact hd
+  · rw [hall]; simp
+  · rw [hall]; simp only [reduceCtorEq, if_false]; exact e .allowNone rfl
+  · rw [hall]; simp only [if_true, eb]
+
+theorem ownValid_selector_unchanged (rx : String → String → Bool) {own : Param} (hT : own.ptype = .selector)
+    {op name : Nat} {view : Slots} {dv : Val}
+    (hv : unboundView .selector op name own.slots = .ok view) (hdv : view .default = some dv)
+    (han : (own.slots .allowNone).isSome = true)
+    (hval : dv.v.isNone = false → validateSelector (cfgOf view) dv.v = .ok ()) : OwnValid rx own := by
+  intro op' name' f4 d hp hd hnn
+  obtain ⟨cos', dd', hc, hd0, h4d, h4c, h4a, h4o⟩ := selector_alone hT hp
+  have hview := fun s => runCallables_selector_cfg (by simpa [unboundView] using hv) s
+  have hdd : d.v = dd' := by
+    have : cfgOf f4 .default = some d.v := by simp [cfgOf, hd]
+    rw [this] at h4d; exact Option.some.inj h4d
+  have hdvd : dv.v = dd' := by
+    have h1 := hview .default
+    simp only [reduceCtorEq, if_false] at h1
+    have : cfgOf view .default = some dv.v := by simp [cfgOf, hdv]
+    rw [this, hd0] at h1; exact Option.some.inj h1
+  rw [hT]
+  show validateSelector (cfgOf f4) d.v = .ok ()
+  have hsa : (cfgOf (staticFill .selector own.slots) .allowNone).isSome = true := by
+    rw [isSome_cfgOf]
+    simp only [staticFill]
+    cases h : own.slots .allowNone with
+    | none => simp [h] at han
+    | some v => rfl
+  cases hct : cos'.truthy with
+  | false =>
+    cases ha : cfgOf (staticFill .selector own.slots) .allowNone with
+    | none => simp [ha] at hsa
+    | some an =>
+      rw [ha] at h4a
+      by_cases hcond : cos' = .atom (.bool false) ∧ dd'.isNone = false
+      · rw [if_pos hcond] at h4o
+        exact validateSelector_falsy _ h4c h4a h4o hct
+      · rw [if_neg hcond] at h4o
+        exact validateSelector_falsy _ h4c h4a h4o hct
+  | true =>
+    have hne : ¬ (cos' = .atom (.bool false) ∧ dd'.isNone = false) := by
+      rintro ⟨h, _⟩; rw [h] at hct; cases hct
+    rw [if_neg hne] at h4o
+    rw [validateSelector_eq (c' := cfgOf view) d.v (by rw [h4c, hview]; simp [hc]) (by rw [h4a, hview]; simp)
+      (by rw [h4o, hview]; simp)]
+    rw [hdd, ← hdvd]
+    apply hval
+    rw [hdvd, ← hdd]; exact hnn
+
+
+
+theorem staticFill_cfg_of_some {T : PType} {f : Slots} {s : Slot} {v : Val} (h : f s = some v) :
+    cfgOf (staticFill T f) s = some v.v := by
+  simp [cfgOf, staticFill, h]
+
+theorem staticFill_cfg_congr {T : PType} {f g : Slots} {s : Slot} (h : cfgOf f s = cfgOf g s) :
+    cfgOf (staticFill T f) s = cfgOf (staticFill T g) s := by
+  simp only [cfgOf, staticFill] at h ⊢
+  cases hf : f s <;> cases hg : g s <;> simp_all
+
+/-- the constructor's `_update_state` appended the default to the declaration's own list -/
+theorem ownValid_selector_adopted (rx : String → String → Bool) {own : Param} (hT : own.ptype = .selector)
+    {op name : Nat} {sl view : Slots} {dv cos : Val}
+    (hv : unboundView .selector op name sl = .ok view) (hdv : view .default = some dv)
+    (hcv : view .checkOnSet = some cos) (hcf : cos.v = .atom (.bool false))
+    (han : (sl .allowNone).isSome = true)
+    (he : ensureInObjects sl dv.v = .ok own.slots) : OwnValid rx own := by
+  intro op' name' f4 d hp hd hdn
+  obtain ⟨cos', dd', hc, hd0, h4d, h4c, h4a, h4o⟩ := selector_alone hT hp
+  have hview := fun s => runCallables_selector_cfg (by simpa [unboundView] using hv) s
+  have hens := fun t => ensureInObjects_cfg he t
+  obtain ⟨⟨l, hl⟩, a, ha⟩ := ensureInObjects_shape he
+  -- the slots of the mutated declaration
+  have e : ∀ t, t ≠ .objects →
+      cfgOf (staticFill .selector own.slots) t = cfgOf (staticFill .selector sl) t := by
+    intro t ht
+    apply staticFill_cfg_congr
+    rw [hens]; simp [ht]
+  have eo : cfgOf (staticFill .selector own.slots) .objects = some (adopt (.list l) dv.v) := by
+    have := hens .objects
+    simp only [if_true, hl, Option.map] at this
+    obtain ⟨w, hw, hwv⟩ := cfgOf_some this
+    rw [staticFill_cfg_of_some hw, hwv]
+  have eo0 : cfgOf (staticFill .selector sl) .objects = some (.list l) := by
+    obtain ⟨w, hw, hwv⟩ := cfgOf_some hl
+    rw [staticFill_cfg_of_some hw, hwv]
+  have hdd : d.v = dd' := by
+    have : cfgOf f4 .default = some d.v := by simp [cfgOf, hd]
+    rw [this] at h4d; exact Option.some.inj h4d
+  have hdvd : dv.v = dd' := by
+    have h1 := hview .default
+    simp only [reduceCtorEq, if_false] at h1
+    have : cfgOf view .default = some dv.v := by simp [cfgOf, hdv]
+    rw [this, ← e .default (by decide), hd0] at h1; exact Option.some.inj h1
+  have hcosv : selCos (cfgOf (staticFill .selector sl)) = some (.atom (.bool false)) := by
+    have h1 := hview .checkOnSet
+    simp only [reduceCtorEq, if_false, if_true] at h1
+    have : cfgOf view .checkOnSet = some cos.v := by simp [cfgOf, hcv]
+    rw [this, hcf] at h1; exact h1.symm
+  have hsa : ∃ an, cfgOf (staticFill .selector own.slots) .allowNone = some an := by
+    rw [e .allowNone (by decide)]
+    cases h : sl .allowNone with
+    | none => simp [h] at han
+    | some v => exact ⟨v.v, staticFill_cfg_of_some h⟩
+  obtain ⟨an, han'⟩ := hsa
+  rw [han'] at h4a
+  rw [hT]
+  show validateSelector (cfgOf f4) d.v = .ok ()
+  have hbase : selBase (cfgOf (staticFill .selector own.slots)) = adopt (.list l) dv.v := by
+    unfold selBase; rw [eo]; rfl
+  cases hct : cos'.truthy with
+  | false =>
+    by_cases hcond : cos' = .atom (.bool false) ∧ dd'.isNone = false
+    · rw [if_pos hcond] at h4o
+      exact validateSelector_falsy _ h4c h4a h4o hct
+    · rw [if_neg hcond] at h4o
+      exact validateSelector_falsy _ h4c h4a h4o hct
+  | true =>
+    have hne : ¬ (cos' = .atom (.bool false) ∧ dd'.isNone = false) := by
+      rintro ⟨h, _⟩; rw [h] at hct; cases hct
+    rw [if_neg hne, hbase] at h4o
+    -- check_on_set was not given (else it is False and we are in the other case): the list was empty
+    unfold selCos at hc hcosv
+    rw [e .checkOnSet (by decide)] at hc
+    cases hcs : cfgOf (staticFill .selector sl) .checkOnSet with
+    | some x =>
+      rw [hcs] at hc hcosv
+      have h1 : x = cos' := by simpa using hc
+      have h2 : x = .atom (.bool false) := by simpa using hcosv
+      rw [← h1, h2] at hct
+      cases hct
+    | none =>
+      rw [hcs] at hcosv
+      simp only [Option.none_or, selBase, eo0, Option.getD_some, PyV.len, Option.map_some, Option.some.injEq,
+        PyV.atom.injEq, Atom.bool.injEq] at hcosv
+      have hl0 : l = [] := by
+        cases l with
+        | nil => rfl
+        | cons x r => simp at hcosv
+      subst hl0
+      have hadopt : adopt (.list []) dv.v = .list [a] := by rw [ha]; simp [adopt]
+      rw [hadopt] at h4o
+      have hda : d.v = .atom a := by rw [hdd, ← hdvd, ha]
+      simp only [validateSelector, h4c, h4a, h4o, hct, hda]
+      have : (PyV.atom a).isNone = false := by rw [← hda]; exact hdn
+      simp [this, memObjs, Atom.pyEq_refl]
+
+
+
+theorem constructSelector_ownValid (rx : String → String → Bool) {op name : Nat} {a : Slots} {inst : Option Bool}
+    {own : Param} (h : constructSelector op name a inst = .ok own) : OwnValid rx own := by
+  unfold constructSelector at h
+  cases had : selectorAutodefault a with
+  | error e => simp [had] at h
+  | ok ad =>
+    simp only [had] at h
+    cases hv : unboundView .selector op name (selectorRaw op name a inst ad).slots with
+    | error e => simp [hv] at h
+    | ok view =>
+      simp only [hv] at h
+      cases hdv : view .default with
+      | none => simp [hdv] at h
+      | some dv =>
+        cases hcv : view .checkOnSet with
+        | none => simp [hdv, hcv] at h
+        | some cos =>
+          simp only [hdv, hcv] at h
+          cases hval : (if dv.v.isNone = true then (Except.ok () : Except ErrKind Unit)
+              else validateSelector (cfgOf view) dv.v) with
+          | error e => simp [hval] at h
+          | ok u =>
+            simp only [hval] at h
+            have hval' : dv.v.isNone = false → validateSelector (cfgOf view) dv.v = .ok () := by
+              intro hn; simpa [hn] using hval
+            split at h
+            · rename_i hcond
+              simp only [Bool.and_eq_true, beq_iff_eq, Bool.not_eq_true'] at hcond
+              cases he : ensureInObjects (selectorRaw op name a inst ad).slots dv.v with
+              | error e => simp [he] at h
+              | ok s' =>
+                simp only [he] at h
+                cases h
+                exact ownValid_selector_adopted rx (own := { selectorRaw op name a inst ad with slots := s' })
+                  rfl hv hdv hcv hcond.1.1 (selectorRaw_allowNone op name a inst ad) he
+            · cases h
+              exact ownValid_selector_unchanged rx rfl hv hdv (selectorRaw_allowNone op name a inst ad) hval'
+
+/-- A declaration whose constructor succeeded is valid on its own: this is all the
+merge needs to know about constructor-time validation. -/
+theorem construct_ownValid (rx : String → String → Bool) (op name : Nat) (d : Decl) (own : Param)
+    (h : construct rx op name d = .ok own) : OwnValid rx own := by
+  by_cases hT : d.ptype = .selector
+  · unfold construct at h
+    simp only [hT] at h
+    exact constructSelector_ownValid rx h
+  · exact construct_ownValid_nonselector rx op name d own hT h
+
+
+
+/-! ### static slots, names, the re-validation condition, the outcome -/
+
+
+/-- a slot the type fills by a callable or by `_update_state` -/
+def Slot.computedFor (T : PType) (s : Slot) : Bool :=
+  match T, s with
+  | .tuple, .length => true
+  | .selector, .objects => true
+  | .selector, .checkOnSet => true
+  | _, _ => false
+
+/-- The static slots of the merged Parameter, whatever the type: own, else nearest, else type default. -/
+theorem held_static_slot (rx : String → String → Bool) (op name : Nat) (own : Param)
+    (supers : List (Option Param))
+    (hr : (inherit rx op name own supers).outcome.reached = true)
+    {s : Slot} (hs : hasSlot own.ptype s = true) (hn : s ≠ .names)
+    (hc : Slot.computedFor own.ptype s = false) :
+    (inherit rx op name own supers).param.cfg s = specStatic own supers s := by
+  by_cases h1 : own.ptype = .tuple
+  · rw [held_eq_expected_tuple rx op name own supers hr h1 hs, expected_tuple supers s h1]
+    have : s ≠ .length := by
+      intro h; subst h; rw [h1] at hc; cases hc
+    simp [this]
+  · by_cases h2 : own.ptype = .selector
+    · obtain ⟨f4, d, hp, hd, _, hslots, _⟩ := inherit_reached hr
+      rw [h2] at hp
+      obtain ⟨cos, dd, _, _, hall⟩ := prepare_selector_cfg rfl hp
+      have hso : s ≠ .objects := by intro h; subst h; rw [h2] at hc; cases hc
+      have hsc : s ≠ .checkOnSet := by intro h; subst h; rw [h2] at hc; cases hc
+      show cfgOf (inherit rx op name own supers).param.slots s = _
+      rw [hslots]
+      have : cfgOf f4 s = specStatic own supers s := by
+        rw [hall s]; simp only [hso, hsc, if_false]
+        rw [← h2]; exact staticFill_found_cfg own supers hs hn
+      split
+      · rw [revalidate_cfg_other rx _ _ _ hso]; exact this
+      · exact this
+    · rw [held_eq_expected_plain rx op name own supers hr h1 h2 hs, expected_plain supers s h1 h2]
+
+/-- `names` always comes from the declaration itself (Selector.__init__ always sets it) -/
+theorem held_names_own (rx : String → String → Bool) (op name : Nat) (own : Param)
+    (supers : List (Option Param))
+    (hr : (inherit rx op name own supers).outcome.reached = true)
+    (hT : own.ptype = .selector) (hown : (own.slots .names).isSome = true) :
+    (inherit rx op name own supers).param.cfg .names = own.cfg .names := by
+  obtain ⟨f4, d, hp, hd, _, hslots, _⟩ := inherit_reached hr
+  rw [hT] at hp
+  obtain ⟨cos, dd, _, _, hall⟩ := prepare_selector_cfg rfl hp
+  show cfgOf (inherit rx op name own supers).param.slots .names = _
+  rw [hslots]
+  have : cfgOf f4 .names = own.cfg .names := by
+    rw [hall]; simp only [reduceCtorEq, if_false]
+    cases hn : own.slots .names with
+    | none => simp [hn] at hown
+    | some v =>
+      simp [cfgOf, staticFill, mergeSearch_fst, hT, hasSlot, firstSome_offers, hn, Param.cfg]
+  split
+  · rw [revalidate_cfg_other rx _ _ _ (by decide)]; exact this
+  · exact this
+
+/-- the re-validation condition, in terms of the declarations: the type changed, or some validated
+slot offers two non-identical values along the MRO and the merged default is not None -/
+theorem revalidated_eq (rx : String → String → Bool) (op name : Nat) (own : Param)
+    (supers : List (Option Param))
+    (hr : (inherit rx op name own supers).outcome.reached = true) :
+    (inherit rx op name own supers).revalidated =
+      (typeChange own.ptype supers ||
+        (anyOverridden own.slots supers (slotsOf own.ptype) &&
+          !(match (inherit rx op name own supers).param.cfg .default with | some d => d.isNone | none => true))) := by
+  obtain ⟨f4, d, hp, hd, hrev, hslots, _⟩ := inherit_reached hr
+  have hdef : (inherit rx op name own supers).param.cfg .default = some d.v := by
+    show cfgOf (inherit rx op name own supers).param.slots .default = some d.v
+    rw [hslots]
+    split
+    · rw [revalidate_cfg_other rx _ _ _ (by decide)]; simp [cfgOf, hd]
+    · simp [cfgOf, hd]
+  rw [hrev, hdef]
+  unfold revalCond
+  cases htc : typeChange own.ptype supers with
+  | true => simp
+  | false => rw [mergeSearch_snd own supers htc]
+
+
+
+theorem revalidate_invalid_not_ok (rx : String → String → Bool) (T : PType) (f : Slots) (d : PyV) {e : ErrKind}
+    (h : (revalidate rx T f d).2 = .invalid e) :
+    validate rx T (cfgOf (revalidate rx T f d).1) d ≠ .ok () := by
+  unfold revalidate at h ⊢
+  split at h
+  · cases he : ensureInObjects f d <;> simp [he] at h
+  · rename_i hc
+    simp only [hc, Bool.false_eq_true, if_false]
+    split at h
+    · cases h
+    · cases h
+    · rename_i e' hne hv
+      simp only [hv]
+      intro hcontra; cases hcontra
+
+theorem Sat_iff_validate {rx : String → String → Bool} {T : PType} {c : Cfg} {d : PyV} (hd : c .default = some d) :
+    Sat rx T c = true ↔ validate rx T c d = .ok () :=
+  ⟨Sat_some hd, Sat_of_validate hd⟩
+
+/-- the merged default, once the merge has reached the re-validation decision -/
+theorem inherit_default (rx : String → String → Bool) (op name : Nat) (own : Param) (supers : List (Option Param))
+    (hr : (inherit rx op name own supers).outcome.reached = true) :
+    ∃ f4 d, prepare own.ptype op name (mergeSearch own supers).1 = .ok f4 ∧ f4 .default = some d ∧
+      (inherit rx op name own supers).param.cfg .default = some d.v := by
+  obtain ⟨f4, d, hp, hd, _, hslots, _⟩ := inherit_reached hr
+  refine ⟨f4, d, hp, hd, ?_⟩
+  show cfgOf (inherit rx op name own supers).param.slots .default = some d.v
+  rw [hslots]
+  split
+  · rw [revalidate_cfg_other rx _ _ _ (by decide)]; simp [cfgOf, hd]
+  · simp [cfgOf, hd]
+
+/-- Mechanism: once the merge reaches the re-validation decision, creation succeeds exactly when
+the merged default is not re-validated or satisfies the merged constraints. -/
+theorem outcome_ok_iff (rx : String → String → Bool) (op name : Nat) (own : Param) (supers : List (Option Param))
+    (hr : (inherit rx op name own supers).outcome.reached = true) :
+    (inherit rx op name own supers).outcome = .ok ↔
+      ((inherit rx op name own supers).revalidated = false ∨
+        Sat rx own.ptype (inherit rx op name own supers).param.cfg = true) := by
+  obtain ⟨f4, d, hp, hd, hrev, hslots, hout⟩ := inherit_reached hr
+  obtain ⟨_, d', hp', hd', hdef⟩ := inherit_default rx op name own supers hr
+  rw [hp] at hp'; cases hp'; rw [hd] at hd'; cases hd'
+  have hfill4 : ∀ s, hasSlot own.ptype s = true → (f4 s).isSome = true := fun s hs => prepare_filled hp hs
+  rw [Sat_iff_validate hdef, hrev]
+  show _ ↔ (_ ∨ validate rx own.ptype (cfgOf (inherit rx op name own supers).param.slots) d.v = .ok ())
+  rw [hslots, hout]
+  cases hrc : revalCond own supers d.v with
+  | false => simp
+  | true =>
+    simp only [if_true, Bool.true_eq_false, false_or]
+    constructor
+    · exact revalidate_ok_validate rx own.ptype f4 d.v hfill4
+    · intro hv
+      rw [hout, hrc] at hr
+      simp only [if_true] at hr
+      cases ho : (revalidate rx own.ptype f4 d.v).2 with
+      | ok => rfl
+      | invalid e => exact absurd hv (revalidate_invalid_not_ok rx own.ptype f4 d.v ho)
+      | _ => rw [ho] at hr; cases hr
+
+
+
+
+theorem staticDefaultV_allowNone {T : PType} (hT : T ≠ .selector) :
+    staticDefaultV T .allowNone = some (boolV false) := by
+  cases T <;> simp_all [staticDefaultV, typeDefault]
+
+theorem baseInit_allowNone (T : PType) (dflt : Option Val) (args : Slots) (inst : Option Bool) (hT : T ≠ .selector) :
+    ((baseInit T dflt args inst).slots .allowNone).map (·.v) =
+      some (if seesNone T dflt then .atom (.bool true)
+            else (match args .allowNone with | some v => v.v | none => .atom (.bool false))) := by
+  simp only [baseInit, staticDefaultV_allowNone hT]
+  cases seesNone T dflt with
+  | true => rfl
+  | false => cases args .allowNone <;> rfl
+
+
+theorem revalidate_not_callableError (rx : String → String → Bool) (T : PType) (f : Slots) (d : PyV) :
+    (revalidate rx T f d).2 ≠ .callableError := by
+  unfold revalidate
+  split
+  · cases ensureInObjects f d <;> simp
+  · split <;> simp
+
+
+/-! ### the oracle's criterion -/
+
+theorem held_eq_expected_all (rx : String → String → Bool) (op name : Nat) (own : Param)
+    (supers : List (Option Param))
+    (hr : (inherit rx op name own supers).outcome.reached = true)
+    (hcos : own.ptype = .selector → ∃ b, specCheckOnSet own supers = some (.atom (.bool b)))
+    {s : Slot} (hs : hasSlot own.ptype s = true) (hn : s ≠ .names) :
+    (inherit rx op name own supers).param.cfg s = expected own supers s := by
+  by_cases h1 : own.ptype = .tuple
+  · exact held_eq_expected_tuple rx op name own supers hr h1 hs
+  · by_cases h2 : own.ptype = .selector
+    · exact held_eq_expected_selector rx op name own supers hr h2 (hcos h2) hs hn
+    · exact held_eq_expected_plain rx op name own supers hr h1 h2 hs
+
+
+theorem specStatic_names_some (own : Param) (supers : List (Option Param)) :
+    (specStatic own supers .names).isSome = true := by
+  unfold specStatic
+  cases chosen own supers .names with
+  | some v => rfl
+  | none => cases own.ptype <;> simp [typeDefault]
+
+theorem expected_names (own : Param) (supers : List (Option Param)) :
+    expected own supers .names = specStatic own supers .names := by
+  unfold expected
+  cases own.ptype <;> rfl
+
+/-- a merge that reached the re-validation decision has every slot computable -/
+theorem computable_of_reached (rx : String → String → Bool) (op name : Nat) (own : Param)
+    (supers : List (Option Param))
+    (hr : (inherit rx op name own supers).outcome.reached = true)
+    (hcos : own.ptype = .selector → ∃ b, specCheckOnSet own supers = some (.atom (.bool b))) :
+    computable own supers = true := by
+  unfold computable
+  rw [List.all_eq_true]
+  intro s hs
+  have hs' := mem_slotsOf.1 hs
+  by_cases hn : s = .names
+  · subst hn; rw [expected_names]; exact specStatic_names_some own supers
+  · rw [← held_eq_expected_all rx op name own supers hr hcos hs' hn]
+    obtain ⟨f4, d, hp, hd, _, hslots, _⟩ := inherit_reached hr
+    show (cfgOf (inherit rx op name own supers).param.slots s).isSome = true
+    rw [isSome_cfgOf, hslots]
+    split
+    · rw [revalidate_isSome]; exact prepare_filled hp hs'
+    · exact prepare_filled hp hs'
+
+theorem Sat_congr (rx : String → String → Bool) (T : PType) {c c' : Cfg} (hd : c .default = c' .default)
+    (h : ∀ s, relevant T s = true → c s = c' s) : Sat rx T c = Sat rx T c' := by
+  unfold Sat
+  rw [hd]
+  cases c' .default with
+  | none => rfl
+  | some d => simp only []; rw [validate_congr rx T d h]
+
+
+
+theorem inherit_callableError (rx : String → String → Bool) (op name : Nat) (own : Param) (supers : List (Option Param))
+    (h : (inherit rx op name own supers).outcome = .callableError) :
+    ∃ e, runCallables own.ptype 1 op name (copyMutable op name (staticFill own.ptype (mergeSearch own supers).1)) = .error e := by
+  unfold inherit at h
+  simp only [] at h
+  cases hp : prepare own.ptype op name (mergeSearch own supers).1 with
+  | ok f4 =>
+    simp only [hp] at h
+    split at h
+    · cases h
+    · split at h
+      · exact absurd h (revalidate_not_callableError rx _ _ _)
+      · cases h
+  | error e =>
+    obtain ⟨o, f⟩ := e
+    simp only [hp] at h
+    subst h
+    simp only [prepare] at hp
+    split at hp
+    · cases hp
+    · cases hrc : runCallables own.ptype 1 op name (copyMutable op name (staticFill own.ptype (mergeSearch own supers).1)) with
+      | error e => exact ⟨e, rfl⟩
+      | ok f3 =>
+        simp only [hrc] at hp
+        split at hp <;> cases hp
+
+theorem runCallables_selector_err {st op name : Nat} {f : Slots} {e : ErrKind}
+    (h : runCallables .selector st op name f = .error e) : selCos (cfgOf f) = none := by
+  simp only [runCallables] at h
+  have h1 : ∀ t, cfgOf (selectorObjectsDefault st op name f) t =
+      if t = .objects then some (selBase (cfgOf f)) else cfgOf f t := by
+    intro t
+    unfold selectorObjectsDefault
+    cases ho : f .objects with
+    | some v =>
+      by_cases ht : t = .objects
+      · subst ht; simp [cfgOf, selBase, ho]
+      · simp [ht]
+    | none =>
+      simp only [cfgOf_set]
+      by_cases ht : t = .objects
+      · subst ht; simp [cfgOf, selBase, ho]
+      · simp [ht]
+  cases hc : (selectorObjectsDefault st op name f) .checkOnSet with
+  | some v => simp [hc] at h
+  | none =>
+    simp only [hc] at h
+    cases hn : ((selectorObjectsDefault st op name f) .objects).bind (·.v.len) with
+    | some n => simp [hn] at h
+    | none =>
+      have hcf : cfgOf f .checkOnSet = none := by
+        have := h1 .checkOnSet
+        simp only [reduceCtorEq, if_false] at this
+        rw [← this]; simp [cfgOf, hc]
+      have ho := h1 .objects
+      simp only [if_true, cfgOf] at ho
+      unfold selCos
+      rw [hcf]
+      simp only [Option.none_or]
+      cases hfo : (selectorObjectsDefault st op name f) .objects with
+      | none => simp [hfo] at ho
+      | some ov =>
+        simp only [hfo, Option.map] at ho
+        simp only [hfo, Option.bind] at hn
+        injection ho with ho
+        rw [← ho, hn]; rfl
+
+/-- a raising callable means the declarative resolver cannot compute a slot either -/
+theorem callableError_not_computable (rx : String → String → Bool) (op name : Nat) (own : Param)
+    (supers : List (Option Param))
+    (h : (inherit rx op name own supers).outcome = .callableError) : computable own supers = false := by
+  obtain ⟨e, he⟩ := inherit_callableError rx op name own supers h
+  have hst : ∀ t, hasSlot own.ptype t = true → t ≠ .names →
+      cfgOf (staticFill own.ptype (mergeSearch own supers).1) t = specStatic own supers t :=
+    fun t ht hn => staticFill_found_cfg own supers ht hn
+  unfold computable
+  rw [List.all_eq_false]
+  by_cases h1 : own.ptype = .tuple
+  · refine ⟨.length, mem_slotsOf.2 (by rw [h1]; rfl), ?_⟩
+    rw [h1] at he
+    have := runCallables_tuple_err he
+    rw [cfgOf_copyMutable, ← h1, hst .length (by rw [h1]; rfl) (by decide)] at this
+    rw [expected_tuple supers .length h1]
+    simp only [if_true, this.1, Option.none_or]
+    have h2 := this.2
+    unfold lenOfDefault at h2
+    rw [hst .default rfl (by decide)] at h2
+    unfold specDefault
+    cases hd : specStatic own supers .default with
+    | none => simp [PyV.len]
+    | some v => rw [hd] at h2; simpa using h2
+  · by_cases h2 : own.ptype = .selector
+    · refine ⟨.checkOnSet, mem_slotsOf.2 (by rw [h2]; rfl), ?_⟩
+      rw [h2] at he
+      have := runCallables_selector_err he
+      rw [cfgOf_copyMutable] at this
+      rw [expected_selector_cos supers h2, specCheckOnSet_eq]
+      unfold selCos selBase at this
+      rw [← h2, hst .checkOnSet (by rw [h2]; rfl) (by decide), hst .objects (by rw [h2]; rfl) (by decide)] at this
+      unfold specBaseObjects
+      simp [this]
+    · exfalso
+      have : runCallables own.ptype 1 op name (copyMutable op name (staticFill own.ptype (mergeSearch own supers).1)) =
+          .ok (copyMutable op name (staticFill own.ptype (mergeSearch own supers).1)) := by
+        revert h1 h2
+        cases own.ptype <;> simp [runCallables]
+      rw [this] at he
+      cases he
+
+
 end ParamVerif.Inherit
